@@ -29,7 +29,7 @@ ERRNO = {"open": errno.ENOSPC, "fdopen": errno.ENOMEM, "chmod": errno.EPERM, "fc
 def configs(thorough, rng):
     out = []
     for ow, op, rm, text, perms, umask, dp, pp in itertools.product([True, False], [False, True], [True, False], [False, True],
-                                                                     [0, 0o600, 0o644], [0o022, 0o077], [False, True], [False, True]):
+                                                                     [-1, 0o600, 0o644, 0], [0o022, 0o077], [False, True], [False, True]):
         out.append(c04.base_cfg(overwrite=ow, overwrite_part=op, rm_part_on_exc=rm, text_mode=text, perms=perms, umask=umask,
                                 dest_present=dp, part_present=pp, body="three"))
     if not thorough:
